@@ -298,7 +298,7 @@ where
     /// ```
     #[inline(always)]
     pub fn select(&self, k: usize, val: usize) -> Option<usize> {
-        if self.alph_size() <= val {
+        if self.len() <= k || self.alph_size() <= val {
             return None;
         }
         self.select_helper(k, val, 0, 0)
